@@ -94,15 +94,22 @@ fn write_mark(head: &[u8], sig: u64, code: i32) -> ! {
 /// the watchdog reports the position of the stuck history and ends the process
 fn start_watchdog(limit: std::time::Duration) {
     std::thread::spawn(move || {
+        // measured in CPU time of this process: a spinning call burns CPU, a process that is merely starved
+        // by other load does not, so machine load cannot produce a false verdict
+        fn cpu() -> std::time::Duration {
+            let mut ts = libc::timespec { tv_sec: 0, tv_nsec: 0 };
+            unsafe { libc::clock_gettime(libc::CLOCK_PROCESS_CPUTIME_ID, &mut ts) };
+            std::time::Duration::new(ts.tv_sec as u64, ts.tv_nsec as u32)
+        }
         let mut last = (usize::MAX, 0u64);
-        let mut since = Instant::now();
+        let mut since = cpu();
         loop {
             std::thread::sleep(std::time::Duration::from_millis(200));
             let cur = (CUR_UNIT.load(Relaxed), CUR_INDEX.load(Relaxed));
             if cur != last {
                 last = cur;
-                since = Instant::now();
-            } else if cur.0 != usize::MAX && since.elapsed() > limit {
+                since = cpu();
+            } else if cur.0 != usize::MAX && cpu().saturating_sub(since) > limit {
                 write_mark(b"\nHANG-MARK sig=", 0, 71);
             }
         }
